@@ -355,3 +355,41 @@ def exact_lookup(ctx, qualname: str, table: str, what: str, key: str):
         ok = (t == f'{p} in self.{table}' and a == [f'return self.{table}[{p}]'] and b == ['return None']) or \
              (t == f'{p} not in self.{table}' and b == [f'return self.{table}[{p}]'] and a == ['return None'])
     ctx.check(ok, key, fn.site(), f'{what} is looked up under exactly the name given (or is None)', '; '.join(unparse(x)[:80] for x in fn.node.body[:4]))
+
+
+# ------------------------------------------------------------------------------------------------ pattern is the only judge
+_REVIEWED_VETOES = {
+    # directive statements start with a dot: anything else is not for this factory
+    'bespokeasm.assembler.line_object.directive_line.factory.DirectiveLine.factory': {"call:cleaned_line_str.startswith('.'):False"},
+}
+
+
+def no_pre_pattern_veto(ctx, scope: str):
+    """In a matcher that consults a regular expression, "no match" (`return None`) is decided after the pattern has been tried:
+    a shortcut that rejects the text beforehand has to agree with the pattern on every input, and the seeded ones never do
+    (prefix decorators, tabs next to a keyword)."""
+    n = 0
+    for q, f in sorted(ctx.repo.functions.items()):
+        if not q.startswith(scope) or f.name not in ('parse_operand', 'factory', '_parse_bytecode_parts'):
+            continue
+        g = ctx.cfg(f)
+        rx_nodes = [g.node_of(c) for c in ast.walk(f.node) if isinstance(c, ast.Call) and isinstance(c.func, ast.Attribute) and c.func.attr in ('match', 'search', 'fullmatch')
+                    and g.has_node(c) and not (unparse(c.func.value) == 're' and c.args and isinstance(c.args[0], ast.Constant) and len(c.args[0].value) < 16)]
+        if not rx_nodes:
+            continue
+        res = resolver(ctx, f, inline=False)
+        for r in returns(f):
+            if not (r.value is None or (isinstance(r.value, ast.Constant) and r.value.value is None)):
+                continue
+            n += 1
+            if any(g.dominates(x, g.node_of(r)) for x in rx_nodes):
+                ctx.ok(f'veto:after-pattern:{ctx.short(f).split("assembler.")[-1]}:{n}', f.site(r), '"no match" follows the pattern match', '')
+                continue
+            fcl = filter_facts_at(ctx, f, r, res)
+            sig = {f'{l[0]}:{l[1]}:{l[-1]}' for c in fcl for l in c}
+            ok = sig <= _REVIEWED_VETOES.get(q, set()) and bool(sig)
+            ctx.check(ok, f'veto:before-pattern:{ctx.short(f).split("assembler.")[-1]}', f.site(r),
+                      'the text is rejected before its pattern is tried only by the reviewed vetoes',
+                      f'`return None` under {describe_facts(fcl)} without consulting the pattern: spellings the pattern accepts (a decorator before the bracket, a tab next to the keyword) are refused')
+    if n < 5:
+        ctx.err('veto:inventory', '-', 'at least 5 "no match" returns in pattern-based matchers', f'{n}')
